@@ -14,8 +14,17 @@ for d in sorted(glob.glob('seeded/C*_*')):
     by = r.get('by') or ('-' if r else '?')
     line = (r.get('runs', {}).get(by, {}) or {}).get('line', '') if by in ('quick', 'thorough') else ''
     how = 'model disagreement' if 'correspondence' in line and 'no-failing-input-found' in line else ('oracle / property violation with replay' if 'VIOLATION' in line else '')
-    rows.append('| %s | %s | %s | %s | %s |' % (sid, files, what, 'caught (%s)' % by if r.get('caught') else ('MISSED' if r else 'not run'), how))
+    refactor = meta.get('kind') == 'refactor'
+    if refactor:
+        verdict = ('FALSE ALARM' if r.get('caught') else 'passes (as it should)') if r else 'not run'
+        what = 'behaviour-preserving refactor: ' + (meta.get('title') or '')[:110]
+    else:
+        verdict = 'caught (%s)' % by if r.get('caught') else ('MISSED' if r else 'not run')
+    rows.append('| %s | %s | %s | %s | %s |' % (sid, files, what, verdict, how))
 print('| Seed | File | What it breaks | Result of `./check <property>` | How reported |')
 print('|---|---|---|---|---|')
 print('\n'.join(rows))
-c = sum(1 for r in res.values() if r.get('caught')); print('\n%d of %d seeded changes are reported by the quick (or thorough) check of their own property.' % (c, len(res)))
+import json as _j
+kinds = {os.path.basename(d): (_j.load(open(d + '/meta.json')).get('kind') if os.path.exists(d + '/meta.json') else None) for d in glob.glob('seeded/C*_*')}
+br = [k for k in res if kinds.get(k) != 'refactor']; rf = [k for k in res if kinds.get(k) == 'refactor']
+print('\n%d of %d property-breaking changes are reported by the check of their own property; %d of %d behaviour-preserving refactors raise an alarm.' % (sum(1 for k in br if res[k].get('caught')), len(br), sum(1 for k in rf if res[k].get('caught')), len(rf)))
